@@ -66,6 +66,34 @@ pub fn point(site: &'static str, addr: usize, value: u64, word: usize) {
     }
 }
 
+/// Number of file-backed `ShmWriter` objects alive in this process, and the largest it has been.
+static LIVE_WRITERS: core::sync::atomic::AtomicUsize = core::sync::atomic::AtomicUsize::new(0);
+static MAX_LIVE_WRITERS: core::sync::atomic::AtomicUsize = core::sync::atomic::AtomicUsize::new(0);
+
+/// The protocol has one writer. When `CLOCKBOUND_VERIF_SINGLE_WRITER` is set, a process that holds
+/// two writers at once says so on stderr (and aborts if the variable is `abort`).
+pub fn writer_created() {
+    use core::sync::atomic::Ordering;
+    let n = LIVE_WRITERS.fetch_add(1, Ordering::SeqCst) + 1;
+    MAX_LIVE_WRITERS.fetch_max(n, Ordering::SeqCst);
+    if n > 1 {
+        if let Ok(mode) = std::env::var("CLOCKBOUND_VERIF_SINGLE_WRITER") {
+            eprintln!("VERIF-SINGLE-WRITER violated: {} ShmWriter objects alive in this process", n);
+            if mode == "abort" {
+                std::process::abort();
+            }
+        }
+    }
+}
+
+pub fn writer_dropped() {
+    LIVE_WRITERS.fetch_sub(1, core::sync::atomic::Ordering::SeqCst);
+}
+
+pub fn max_live_writers() -> usize {
+    MAX_LIVE_WRITERS.load(core::sync::atomic::Ordering::SeqCst)
+}
+
 /// Instrumented stand-in for `std::sync::atomic`.
 pub mod atomic {
     use super::point;
